@@ -84,15 +84,15 @@ def V1(inp, slots):
 
 
 @obligation('V2', props=('C17',), quick=[dict()], stubs=_STUBS,
-            bounds='object method f with versions from {0},{1},{0,1},{0,2},{1,3},{0,1,3}, consumer method h likewise; enabled version symbolic 0..4')
+            bounds='object method f with versions from {0},{1},{0,1},{0,2},{1,3},{0,1,3},{0,2,10},{0,9,10,11} (two-digit versions included), consumer method h likewise; enabled version symbolic 0..12')
 def V2(inp):
     """dispatch: with the cluster's enabled version v (symbolic), a call of f is packed with the id of the variant with the
     greatest version <= v, on the object and on consumers; methods with no variant <= v are not callable."""
-    sets = ([0], [1], [0, 1], [0, 2], [1, 3], [0, 1, 3])
+    sets = ([0], [1], [0, 1], [0, 2], [1, 3], [0, 1, 3], [0, 2, 10], [0, 9, 10, 11])
     fv = sets[inp.choice('fvers', len(sets))]
     hv = sets[inp.choice('hvers', len(sets))]
     o, cons, tr = _build({(0, 'f'): fv, (1, 'h'): hv}, inp, 'D')
-    v = inp.int('enabled', 0, 4)
+    v = inp.int('enabled', 0, 12)
     _, exc = guard(getattr(o, so.P + 'onSetCodeVersion'), v)
     cl = {'no_exception': exc is None}
     seen = []
@@ -139,23 +139,40 @@ def V3(inp):
 from pvf.obligations.apply import Acc, Rec, _seq_matches, _seq_prefix       # noqa: E402
 
 
-@obligation('V4', props=('C17', 'C01'), quick=[dict(pos=0), dict(pos=1)], stubs=_STUBS + ('pysyncobj.syncobj.pickle=FakePickle',),
-            bounds='committed batch of 3 entries: a VERSION entry (requested version symbolic 0..3, own version 0) at position pos, add(x) before/after it; two ticks')
-def V4(inp, pos):
+class Acc2(Acc):
+    """Acc with a second code version (own code version 2)"""
+
+    @replicated(ver=2)
+    def add(self, x):
+        self.total = self.total + x
+        self.seq.append(('add', x))
+        return self.total
+
+
+@obligation('V4', props=('C17', 'C01', 'C12'), quick=[dict(pos=0), dict(pos=1), dict(pos=1, own=2)], thorough=[dict(pos=p, own=o) for p in (0, 1, 2) for o in (0, 2)],
+            stubs=_STUBS + ('pysyncobj.syncobj.pickle=FakePickle',),
+            bounds='committed batch of 3 entries: a VERSION entry (requested version symbolic 0..3) at position pos, add(x) before/after it; own code version 0 or 2, enabled version symbolic 0..own; two ticks')
+def V4(inp, pos, own=0):
     """a node that lacks an enabled version stops applying: nothing at or after an unsupported VERSION entry is applied,
-    the applied index stops just before it, no entry is applied twice on later ticks; a supported VERSION entry is applied
-    like any other and the batch completes."""
+    the applied index stops just before it, no entry is applied twice on later ticks; a VERSION entry the node supports -
+    whatever the currently enabled version - is applied like any other entry and the batch completes."""
     now = inp.real('now', 0)
-    o, tr = so.make('a', ['b', 'c'], so.Clock(now), inp, cls=Acc)
+    o, tr = so.make('a', ['b', 'c'], so.Clock(now), inp, cls=Acc2 if own == 2 else Acc)
     cmds.install(inp)
     w = inp.int('wanted', 0, 3)
+    en = inp.int('enabled', 0, own) if own else 0
+    if own:
+        en = en.concretize() if core.is_sym(en) else en
+        getattr(o, so.P + 'onSetCodeVersion')(en)
+        put(o, 'enabledCodeVersion', en)
     xs = [inp.int('x%d' % i, 1, 5) for i in range(3)]
+    add_id = o._methodToID['add_v0']
     entries = []
     for i in range(3):
         if i == pos:
             entries.append(cmds.version(inp, w))
         else:
-            entries.append(cmds.regular(inp, o._methodToID['add_v0'], (xs[i],)))
+            entries.append(cmds.regular(inp, add_id, (xs[i],)))
     log = [(so.NOOP, 1, 0)] + [(entries[i], 2 + i, 1) for i in range(3)]
     so.set_log(o, log)
     put(o, 'raftCurrentTerm', 1); put(o, 'raftCommitIndex', 4); put(o, 'raftLastApplied', 1)
@@ -169,16 +186,16 @@ def V4(inp, pos):
     _, exc = guard(o._onTick, 0.0)
     _, exc2 = guard(o._onTick, 0.0)
     applied = o.raftLastApplied
-    unsupported = w > 0
+    unsupported = w > own
     cl = {'no_exception': exc is None and exc2 is None}
     adds = [(i, xs[i]) for i in range(3) if i != pos]
     before = [(True, x) for i, x in adds if i < pos]
     after_ = [(Not(unsupported), x) for i, x in adds if i > pos]
     cl['entries_before_and_after'] = _seq_matches(o.seq, before + after_)
     cl['applied_index_stops_before_unsupported_version'] = Eq(applied, Ite(unsupported, 1 + pos, 4))
-    cl['enabled_version'] = Eq(o.getCodeVersion(), Ite(unsupported, 0, w))
+    cl['enabled_version'] = Eq(o.getCodeVersion(), Ite(unsupported, en, w))
     cl['callbacks_only_for_applied_entries_once'] = And([Iff(Or(i < pos, Not(unsupported)), len(r.calls) == 1) if len(r.calls) <= 1 else False for i, r in enumerate(recs)])
-    return Res(cl, nontrivial=unsupported, obs=lambda: dict(pos=pos, wanted=show(w), seq=show(o.seq), applied=show(applied),
+    return Res(cl, nontrivial=unsupported, obs=lambda: dict(pos=pos, own=own, enabled=show(en), wanted=show(w), seq=show(o.seq), applied=show(applied),
                                                             calls=[len(r.calls) for r in recs], exc=show(exc)), vars=dict(unsupported=unsupported))
 
 
